@@ -19,7 +19,7 @@ import z3
 from symx import loader
 from symx.core import Sym, Ctx, symarray, qval
 from symx.report import fl, concretiser
-from symx.xh import crosshair_obligation, replay_counterexample
+from symx.xh import crosshair_obligation, replay_counterexample, real_hvsrpy
 from harness import pipeline as PP
 from harness import C01
 
@@ -57,7 +57,18 @@ def instances(tier):
 
 
 def run_xh(rep, tier):
-    crosshair_obligation(rep, "xhair/C19_fft.py", "chunk_fft_length", twin="chunk_fft_length_reach", timeout_s=60 if tier == "quick" else 200, key="fft-length-leaks-within-chunk")
+    Ld = L()
+    S = Ld["settings"]
+    pre, pro = S.HvsrPreProcessingSettings(), S.HvsrTraditionalProcessingSettings()
+    snap = (dict(pre.attr_dict), dict(pro.attr_dict))
+    got_pre, got_pro = worker_passes(Ld)(pre, pro)
+    copies = (got_pre is not pre) and (got_pro is not pro) and snap == (dict(pre.attr_dict), dict(pro.attr_dict))
+    rep.notes.append(f"worker hands private copies of the chunk's settings objects to the library: {copies}")
+    r = crosshair_obligation(rep, "xhair/C19_fft.py", "chunk_fft_length", twin="chunk_fft_length_reach", timeout_s=60 if tier == "quick" else 200,
+                             key="fft-length-leaks-within-chunk", extra_env={"XH_WORKER_COPIES": "1" if copies else "0"})
+    if r["status"] == "refuted":
+        # the same witness, end to end through the real worker function on files written to disk
+        rep.candidate({"kind": "chunk", "method": "geometric_mean", "order": "long_then_short"}, "worker output for a file depends on the file handled before it in the chunk", key="output-depends-on-chunk-history")
 
 
 def worker_passes(Ld):
@@ -175,7 +186,8 @@ def replay(spec):
         r = replay_counterexample(spec)
         r["key"] = "fft-length-leaks-within-chunk"
         return r
-    import hvsrpy, tempfile, os, shutil
+    import tempfile, os, shutil
+    hvsrpy = real_hvsrpy()
     from hvsrpy import cli as CLI
     d = tempfile.mkdtemp(prefix="c19_")
     cwd = os.getcwd()
@@ -183,13 +195,14 @@ def replay(spec):
         os.chdir(d)
         long_first = spec["order"] == "long_then_short"
         fa, fb = os.path.join(d, "file_a.saf"), os.path.join(d, "file_b.saf")
-        _write_saf(fa, 200 if long_first else 100, 24000 if long_first else 12000, 1)      # 120 s at 200 Hz / 100 Hz
-        _write_saf(fb, 100 if long_first else 200, 12000 if long_first else 24000, 2)
+        # 660 s at 200 Hz / 100 Hz with 300 s windows: 60001 samples per window (n_fft 65536) vs 30001 (n_fft 32768)
+        _write_saf(fa, 200 if long_first else 100, 132000 if long_first else 66000, 1)
+        _write_saf(fb, 100 if long_first else 200, 66000 if long_first else 132000, 2)
         m = spec["method"]
-        kw = dict(smoothing=dict(operator="konno_and_ohmachi", bandwidth=40, center_frequencies_in_hz=np.geomspace(0.5, 20, 16)))
+        kw = dict(smoothing=dict(operator="konno_and_ohmachi", bandwidth=40, center_frequencies_in_hz=np.geomspace(0.5, 20, 8)))
 
         def settings():
-            pre = hvsrpy.HvsrPreProcessingSettings(window_length_in_seconds=30.0, filter_corner_frequencies_in_hz=[None, None])
+            pre = hvsrpy.HvsrPreProcessingSettings(window_length_in_seconds=300.0, filter_corner_frequencies_in_hz=[None, None])
             if m == "geometric_mean":
                 pro = hvsrpy.HvsrTraditionalProcessingSettings(**kw)
             elif m == "single_azimuth":
